@@ -1302,7 +1302,17 @@ def r12_extension_mode_merge(ctx):
         ctx.lost(R, "an impl RequestExtractor for a tuple of two or more extractors")
 
 
-RULES = [("C07.R13", r13_owned_wire_types_match_their_schema), ("C07.R12", r12_extension_mode_merge), ("C07.R10", r10_documented_media_type_is_accepted), ("C07.R11", r11_schema_keywords_are_carried), ("C07.R9", r9_error_reference_names_the_stored_response), ("C07.R8", r8_headers_wrapper_keeps_the_response), ("C07.R7", r7_framework_errors_use_endpoint_error_type), ("C07.R1", r1_type_parameter), ("C07.R2", r2_location), ("C07.R3", r3_content_type), ("C07.R4", r4_response),
+def r14_documented_parameters_are_decodable(ctx):
+    """`a request built from the document is accepted`: a path or query parameter is published only if every alternative of its schema is a
+    scalar the flat-string decoder can produce.  This is C02.R5b, re-evaluated here (adversary change C07-K: the oneOf arm of the scalar
+    check went from all(..) to any(..), so `enum Selector { All, Named(String) }` was documented as a query parameter although its object
+    alternative is refused however it is encoded)."""
+    from . import c02
+    from .lib_c01 import Renamed
+    c02.r5b_scalar_check_is_total(Renamed(ctx, "C07.R14", "a parameter type is accepted (and so documented) only when the scalar check justified every alternative of its schema"))
+
+
+RULES = [("C07.R14", r14_documented_parameters_are_decodable), ("C07.R13", r13_owned_wire_types_match_their_schema), ("C07.R12", r12_extension_mode_merge), ("C07.R10", r10_documented_media_type_is_accepted), ("C07.R11", r11_schema_keywords_are_carried), ("C07.R9", r9_error_reference_names_the_stored_response), ("C07.R8", r8_headers_wrapper_keeps_the_response), ("C07.R7", r7_framework_errors_use_endpoint_error_type), ("C07.R1", r1_type_parameter), ("C07.R2", r2_location), ("C07.R3", r3_content_type), ("C07.R4", r4_response),
          ("C07.R5", r5_error_schema), ("C07.R6", r6_required)]
 
 A = "dropshot/src/api_description.rs"
@@ -1528,7 +1538,7 @@ SELFTEST += [
 LEVEL_TEXT += " Also (R7): every framework-generated error on the endpoint path is converted through the endpoint's declared error type before it becomes a response, so its body matches the documented error schema of a custom error type."
 LEVEL_TEXT += " Also (R9): the $ref an operation uses for its error responses names the components.responses entry that holds that error type's schema."
 LEVEL_TEXT += ' Also (R10 = C09.R8, R11 = C08.R1): the documented media type is matched after normalisation, and schema keywords are carried to the keyword of the same meaning.'
-LEVEL_TEXT += " Also (R12): the extension mode (pagination / websocket) documented for a tuple of extractors is None when no member declares one, the declaring member's mode whatever its position when exactly one does, and a panic when two members declare different ones — decided by interpreting each tuple's metadata() over every assignment of modes to its members (the members' own metadata() stubbed)."
+LEVEL_TEXT += " Also (R12): the extension mode (pagination / websocket) documented for a tuple of extractors is None when no member declares one, the declaring member's mode whatever its position when exactly one does, and a panic when two members declare different ones — decided by interpreting each tuple's metadata() over every assignment of modes to its members (the members' own metadata() stubbed). Also (R13): ResultsPage<T> is documented by its schema twin ResultsPageSchema<T> and serialised by its own impl -- the documented properties are the serialised keys with the same field types, and every required property is written on every path; (R5) the same always-serialised clause for the error body."
 
 
 SELFTEST += [
